@@ -980,6 +980,29 @@ pub fn eval<'a>(op: &Op, sh: &Shared, rs: &RunShared, tl: &mut ThreadObjs<'a>) -
             t.mul_by_nonresidue();
             t.img(&mut out);
         }
+        "misc" => {
+            // small pure helpers of the public API that nothing else in the catalogue reaches
+            use pairing_plus::signum::Signum0;
+            let i = a(0);
+            out.push(format!("{:?}", p.fq[i % p.fq.len()].sgn0()).len() as u8);
+            out.push(format!("{:?}", p.fq2[i % p.fq2.len()].sgn0()).len() as u8);
+            out.extend_from_slice(&(G1Affine::find_pippinger_window(a(1)) as u64).to_le_bytes());
+            out.extend_from_slice(&(G2Affine::find_pippinger_window(a(1) * 37) as u64).to_le_bytes());
+            out.extend_from_slice(&(G1Affine::find_pippinger_window_via_estimate(1 + a(1) % 5000) as u64).to_le_bytes());
+            out.extend_from_slice(format!("{}|{}|{:?}", p.g1[i % p.g1_nsub], p.g2p[i % p.g2_nsub], p.fr[i % p.fr.len()]).as_bytes());
+            out.extend_from_slice(format!("{}", p.fq12[i % p.fq12.len()]).as_bytes());
+            out.push((G1::default() == G1::zero()) as u8);
+        }
+        "field_random" => {
+            let mut r = YRng(CoreRng(Rng::new(a(1) as u64 ^ 0x1f1f)));
+            match a(0) % 5 {
+                0 => Fq::random(&mut r).img(&mut out),
+                1 => Fr::random(&mut r).img(&mut out),
+                2 => Fq2::random(&mut r).img(&mut out),
+                3 => Fq6::random(&mut r).img(&mut out),
+                _ => Fq12::random(&mut r).img(&mut out),
+            }
+        }
         "fq_ops" => {
             let x = p.fq[a(0) % p.fq.len()];
             field_bundle(&x, &p.fq[a(1) % p.fq.len()], 1 + a(1) % 2, &mut out);
